@@ -58,8 +58,18 @@ def small_region(rng, kind=None, compound_depth=0, base=None):
 
 class Check(PropertyCheck):
     id = 'C02'
-    lean_targets = ['RegionsVerif.Props.C02', 'RegionsVerif.Props.C02Mask', 'RegionsVerif.Props.C02Fast', 'RegionsVerif.Props.C08']
-    namespaces = ['RegionsVerif.Props.C02']
+    lean_targets = ['RegionsVerif.Props.C02', 'RegionsVerif.Props.C02Mask', 'RegionsVerif.Props.C02Fast', 'RegionsVerif.Props.C08',
+                    'RegionsVerif.Bridge.MaskGlue']
+    namespaces = ['RegionsVerif.Props.C02', 'RegionsVerif.Bridge.MaskGlue']
+
+    def translate(self):
+        # tie T: regenerate Gen/MaskGlue.lean (the to_mask glue of the four maskable classes) from the current source
+        import importlib.util, os
+        from .common import VERIF
+        spec = importlib.util.spec_from_file_location('maskglue', os.path.join(VERIF, 'tools', 'maskglue.py'))
+        mod = importlib.util.module_from_spec(spec)
+        spec.loader.exec_module(mod)
+        return mod.main()
     rule = ('maskable regions (circle, ellipse, rectangle, polygon, regular polygon, three annuli, and/or/xor compounds to depth 2) '
             'of a few pixels x centres on pixel edges/corners/generic/far from the origin (1e3, 1e6) x mode center / subpixels 1..12 / '
             'invalid modes and counts; unsupported class/mode combinations. Non-trivial = the mask has both a zero and a non-zero cell.')
